@@ -46,7 +46,8 @@ pub open spec fn builtins_live<C: ContentAddrStore>(s: UnsealedState<C>) -> bool
 /// built-in pools that already exist are live (their initial liquidity belongs to nobody, so they can never be emptied)
 pub open spec fn builtins_if_present<C: ContentAddrStore>(s: UnsealedState<C>) -> bool {
     (s.pools@.contains_key(pk_mel_sym()) ==> pool_live(s.pools@[pk_mel_sym()])) && (s.pools@.contains_key(pk_mel_erg()) ==> pool_live(s.pools@[pk_mel_erg()]))
-    && (s.pools@.contains_key(pk_erg_sym()) ==> pool_live(s.pools@[pk_erg_sym()]))
+    // nothing is required of ERG/SYM: before TIP-902 it is an ordinary pool that its holders may empty; create_builtins seeds it at
+    // activation when it is absent OR empty (fix "an emptied ERG/SYM pool is seeded at TIP-902"), and pools_ok makes a non-empty one live
 }
 
 // ---- TIP-909 subsidy (apply_tip_909)
